@@ -656,7 +656,7 @@ def _ok(m, t, out):
     if k == "bin":
         n, p, s, a, b = t[1:]
         if READER_BINOPS.get(n) != (p, s):
-            out.append("op-table")
+            out.append("eqat-token" if (n, p, s) == WEIRD_BIN else "op-outside-reader-table")
         _ok("in", a, out)
         _ok("in", b, out)
         if bare_left(p, s, a):
